@@ -14,21 +14,33 @@ EXTENDS Naturals, Integers, Sequences, FiniteSets, TLC
 Classes == {"ok", "lexical", "syntax", "import", "scope", "type", "eval"}
 LoadErrors == {"lexical", "syntax", "import", "scope", "type"}
 
+CONSTANT OptionsWin                  \* TRUE in the code: a setting given as an option overrides the configuration file
+
+\* where the settings come from: options only, the configuration file only, or both - then the file names a
+\* decoy target (and a decoy main) that must not be used
+CfgModes == {"options", "config", "both"}
+
 VARIABLES cls,                       \* hidden class of the sources
-          hasBase, viaConfig, targetExisted,      \* CLI configuration
+          hasBase, viaConfig, targetExisted,      \* CLI configuration (viaConfig \in CfgModes)
+          eff, decoy,                             \* which target the settings resolve to ("T" / "D"); state of the decoy file
           pc, target, exit, located,              \* CLI run
           wasm, lsp                               \* "none" | "ok" | "error";  "none" | "clean" | "diagnostics"
-vars == <<cls, hasBase, viaConfig, targetExisted, pc, target, exit, located, wasm, lsp>>
+vars == <<cls, hasBase, viaConfig, targetExisted, eff, decoy, pc, target, exit, located, wasm, lsp>>
 
 Init ==
   /\ cls \in Classes
-  /\ hasBase \in BOOLEAN /\ viaConfig \in BOOLEAN /\ targetExisted \in BOOLEAN
+  /\ hasBase \in BOOLEAN /\ viaConfig \in CfgModes /\ targetExisted \in BOOLEAN
   /\ pc = "config" /\ target = (IF targetExisted THEN "old" ELSE "none")
+  /\ eff = "?" /\ decoy = (IF viaConfig = "both" /\ targetExisted THEN "old" ELSE "none")
   /\ exit = -1 /\ located = FALSE /\ wasm = "none" /\ lsp = "none"
 
+\* Config::main/target/base: option first, then the file (config.rs `args.x.or(file.api.x)`)
+Setting(opt, file) == IF OptionsWin THEN (IF opt # "none" THEN opt ELSE file) ELSE (IF file # "none" THEN file ELSE opt)
 CliConfig ==
   /\ pc = "config" /\ pc' = "load"
-  /\ UNCHANGED <<cls, hasBase, viaConfig, targetExisted, target, exit, located, wasm, lsp>>
+  /\ eff' = Setting(IF viaConfig = "config" THEN "none" ELSE "T",
+                    CASE viaConfig = "options" -> "none" [] viaConfig = "config" -> "T" [] OTHER -> "D")
+  /\ UNCHANGED <<cls, hasBase, viaConfig, targetExisted, decoy, target, exit, located, wasm, lsp>>
 
 \* Processor::load: lexical, syntax, import, scope and type errors are reported and end the run
 CliLoad ==
@@ -36,37 +48,38 @@ CliLoad ==
   /\ IF cls \in LoadErrors
      THEN located' = TRUE /\ exit' = 1 /\ pc' = "exited"
      ELSE pc' = "eval" /\ UNCHANGED <<located, exit>>
-  /\ UNCHANGED <<cls, hasBase, viaConfig, targetExisted, target, wasm, lsp>>
+  /\ UNCHANGED <<cls, hasBase, viaConfig, targetExisted, eff, decoy, target, wasm, lsp>>
 
 CliEval ==
   /\ pc = "eval"
   /\ IF cls = "eval"
      THEN located' = TRUE /\ exit' = 1 /\ pc' = "exited"
      ELSE pc' = "base" /\ UNCHANGED <<located, exit>>
-  /\ UNCHANGED <<cls, hasBase, viaConfig, targetExisted, target, wasm, lsp>>
+  /\ UNCHANGED <<cls, hasBase, viaConfig, targetExisted, eff, decoy, target, wasm, lsp>>
 
 CliBase ==
   /\ pc = "base" /\ pc' = "serialize"
-  /\ UNCHANGED <<cls, hasBase, viaConfig, targetExisted, target, exit, located, wasm, lsp>>
+  /\ UNCHANGED <<cls, hasBase, viaConfig, targetExisted, eff, decoy, target, exit, located, wasm, lsp>>
 
 CliSerialize ==
   /\ pc = "serialize" /\ pc' = "write"
-  /\ UNCHANGED <<cls, hasBase, viaConfig, targetExisted, target, exit, located, wasm, lsp>>
+  /\ UNCHANGED <<cls, hasBase, viaConfig, targetExisted, eff, decoy, target, exit, located, wasm, lsp>>
 
 CliWrite ==
   /\ pc = "write"
-  /\ target' = "new" /\ exit' = 0 /\ pc' = "exited"
-  /\ UNCHANGED <<cls, hasBase, viaConfig, targetExisted, located, wasm, lsp>>
+  /\ IF eff = "T" THEN target' = "new" /\ UNCHANGED decoy ELSE decoy' = "new" /\ UNCHANGED target
+  /\ exit' = 0 /\ pc' = "exited"
+  /\ UNCHANGED <<cls, hasBase, viaConfig, targetExisted, eff, located, wasm, lsp>>
 
 Wasm ==
   /\ wasm = "none"
   /\ wasm' = (IF cls = "ok" THEN "ok" ELSE "error")
-  /\ UNCHANGED <<cls, hasBase, viaConfig, targetExisted, pc, target, exit, located, lsp>>
+  /\ UNCHANGED <<cls, hasBase, viaConfig, targetExisted, eff, decoy, pc, target, exit, located, lsp>>
 
 Lsp ==
   /\ lsp = "none"
   /\ lsp' = (IF cls = "ok" THEN "clean" ELSE "diagnostics")
-  /\ UNCHANGED <<cls, hasBase, viaConfig, targetExisted, pc, target, exit, located, wasm>>
+  /\ UNCHANGED <<cls, hasBase, viaConfig, targetExisted, eff, decoy, pc, target, exit, located, wasm>>
 
 Done == pc = "exited" /\ wasm # "none" /\ lsp # "none" /\ UNCHANGED vars
 
@@ -88,6 +101,9 @@ ExitIffWritten == pc = "exited" =>
 FailureIsLocatedAndHarmless == (pc = "exited" /\ cls # "ok") =>
   /\ target = InitialTarget
   /\ located
+
+\* the file the configuration file names is never touched when an option names another target
+DecoyUntouched == decoy = (IF viaConfig = "both" /\ targetExisted THEN "old" ELSE "none")
 
 FrontEndsAgree ==
   /\ (pc = "exited" /\ wasm # "none") => ((exit = 0) <=> (wasm = "ok"))
